@@ -318,7 +318,40 @@ pub fn check_chunking(c: &Case, rec: &mut Rec) -> Result<(), String> {
 pub fn check_decode(spec: &VtxSpec, rec: &mut Rec) -> Result<(), String> {
     let file = vtxw::write(spec);
     rec.eval();
-    let v = Vtx::load(std::io::Cursor::new(&file)).map_err(|e| format!("well-formed VTX rejected: {:?}", e))?;
+    // the reader hands the file over all at once or in short reads (chosen by the file's bytes)
+    struct Short<'a> {
+        data: &'a [u8],
+        pos: usize,
+        max: usize,
+    }
+    impl<'a> std::io::Read for Short<'a> {
+        fn read(&mut self, buf: &mut [u8]) -> std::io::Result<usize> {
+            let n = buf.len().min(self.max).min(self.data.len() - self.pos);
+            buf[..n].copy_from_slice(&self.data[self.pos..self.pos + n]);
+            self.pos += n;
+            Ok(n)
+        }
+    }
+    impl<'a> std::io::Seek for Short<'a> {
+        fn seek(&mut self, pos: std::io::SeekFrom) -> std::io::Result<u64> {
+            let len = self.data.len() as i64;
+            let new = match pos {
+                std::io::SeekFrom::Start(n) => n as i64,
+                std::io::SeekFrom::End(n) => len + n,
+                std::io::SeekFrom::Current(n) => self.pos as i64 + n,
+            };
+            if new < 0 {
+                return Err(std::io::Error::new(std::io::ErrorKind::InvalidInput, "seek before start"));
+            }
+            self.pos = (new as usize).min(self.data.len());
+            Ok(new as u64)
+        }
+    }
+    let max = [usize::MAX, usize::MAX, 1, 7, 64, 255, 257][(fnv(&file) % 7) as usize];
+    if max != usize::MAX {
+        rec.class("reader-with-short-reads");
+    }
+    let v = Vtx::load(Short { data: &file, pos: 0, max }).map_err(|e| format!("well-formed VTX rejected (reader returning at most {} bytes per read): {:?}", max, e))?;
     let want: Vec<u8> = spec.frames.iter().flat_map(|f| f.iter().copied()).collect();
     if v.frame_data != want {
         let pos = v.frame_data.iter().zip(want.iter()).position(|(a, b)| a != b);
